@@ -1300,7 +1300,12 @@ func leafPaths(t types.Type) ([]string, bool) {
 		switch u := t.Underlying().(type) {
 		case *types.Struct:
 			for i := 0; i < u.NumFields(); i++ {
-				p := prefix + "." + u.Field(i).Name()
+				sfx := fieldSuffix(u, i)
+				if sfx == "" {
+					walk(u.Field(i).Type(), prefix, depth+1)
+					continue
+				}
+				p := prefix + sfx
 				out = append(out, p)
 				walk(u.Field(i).Type(), p, depth+1)
 			}
